@@ -82,7 +82,11 @@ func c12Gen(class string, seed uint64, tier string) *vfScenario {
 			sc.Cfg["closecode"] = int64([]int{4, 1, 2, 3, 5, 6, 7, 8, 4, 9}[rng.IntN(10)])
 		}
 		for _, k := range []string{"read", "readat", "write", "writeat", "seek", "fstat", "truncate", "chmod", "fchown", "sync", "readfrom", "readfromc", "writeto", "close", "setext"} {
-			sc.Ops = append(sc.Ops, vfOp{K: k, N: 1 + rng.IntN(3*P), Off: int64(rng.IntN(5)), A: int64(rng.IntN(3)), S: "4,0,-1,0"})
+			n := 1 + rng.IntN(3*P)
+			if rng.IntN(4) == 0 {
+				n = 0 // zero-length buffers and empty sources: the closed state is reported all the same, as by an os.File
+			}
+			sc.Ops = append(sc.Ops, vfOp{K: k, N: n, Off: int64(rng.IntN(5)), A: int64(rng.IntN(3)), S: "4,0,-1,0"})
 		}
 	default:
 		sc.Ops = c01GenOps(rng, P, M, 1+rng.IntN(20), true)
